@@ -1254,3 +1254,144 @@ Proof.
       * rewrite nth_skipn. rewrite Hlen1 in Hy. replace (S (length ta) + length V0) with (length ta + 1 + length V0) by lia. exact Hy.
       * eapply tok_cut_hdr; eauto.
 Qed.
+
+(* ------------------------------------------------------------------ the run on the chopped data *)
+Lemma eof_exit_consistent s sf F r tr :
+  runs s sf -> step sf = Done F -> Inv s ->
+  skip_ws_t (chop r (pdata s)) = None -> step (chopS r s) = Done tr -> consistent_tape F tr.
+Proof.
+  intros R HD HI Hw Hex.
+  destruct s as [d st m p t]. unfold chopS in Hex. cbn [pdata pst_ pmixed pparent ptape] in *.
+  rewrite (step_same_skip _ [] st m p t) in Hex by (rewrite Hw; reflexivity).
+  destruct st; try (rewrite eof_mid_field in Hex by (reflexivity || discriminate); discriminate).
+  destruct (list_last_cases _ t) as [->|(t1 & x & ->)].
+  - unfold Inv in HI. cbn [pst_ pparent ptape inv] in HI.
+    assert (p = 0).
+    { destruct (chainrep_inv _ _ HI) as [[-> _]|(t0 & p0 & c & V & E & _)]; [reflexivity|]. destruct t0; discriminate. }
+    subst p. unfold step in Hex. cbn in Hex. injection Hex as <-. left. left. reflexivity.
+  - eapply (exit_consistent _ sf F t1 x x m tr R HD HI); [reflexivity|reflexivity|apply tok_cut_refl|exact Hex].
+Qed.
+
+Theorem cut_run s sf F : runs s sf -> step sf = Done F -> Inv s ->
+  forall r fuel tr, ploop fuel (chopS r s) = Ok tr -> consistent_tape F tr.
+Proof.
+  induction 1 as [s|s s1 s2 H1 R IH]; intros HD HI r fuel tr Hp.
+  - destruct fuel as [|f]; [discriminate|]. cbn [ploop] in Hp.
+    rewrite (step_chop_done r _ _ HD) in Hp. injection Hp as <-. left. apply prefix_cut_refl.
+  - destruct fuel as [|f]; [discriminate|]. cbn [ploop] in Hp.
+    assert (R0 : runs s s2) by (eapply runs_step; eauto).
+    destruct (step_chop r s s1 H1) as [Hw | Hc].
+    + destruct (step (chopS r s)) as [sx|tx|ex|cx] eqn:Ex; try discriminate.
+      * exfalso. destruct s as [d st m p t]. unfold chopS in Ex. cbn [pdata pst_ pmixed pparent ptape] in *.
+        unfold step in Ex. cbv zeta in Ex. cbn [pdata pst_ pmixed pparent ptape] in Ex. rewrite Hw in Ex.
+        destruct st; try discriminate. destruct (Nat.eqb p 0); [discriminate|].
+        destruct (Nat.eqb _ 0); [destruct (tset _ _ _)|]; discriminate.
+      * injection Hp as <-. eapply eof_exit_consistent; eauto.
+    + destruct Hc as [Hs | Hb | s'' Hs Hd | d' m p t x x' Es Hs Hcut].
+      * rewrite Hs in Hp. eapply IH; [exact HD|eapply Inv_step; eauto|exact Hp].
+      * destruct (step (chopS r s)); cbn [bad] in Hb; try contradiction; discriminate.
+      * rewrite Hs in Hp. exfalso. exact (Hd _ _ Hp).
+      * rewrite Hs in Hp. destruct f as [|f']; [discriminate|]. cbn [ploop] in Hp.
+        destruct (step (mkps [] SKey m p (tpush t x'))) as [sx|tx|ex|cx] eqn:Ex; try discriminate.
+        -- exfalso. unfold step in Ex. cbn in Ex. destruct (Nat.eqb p 0); [discriminate|].
+           destruct (Nat.eqb _ 0); [destruct (tset _ _ _)|]; discriminate.
+        -- injection Hp as <-. subst s1.
+           eapply (exit_consistent _ s2 F t x x' m tx R HD (Inv_step _ _ HI H1)); [reflexivity|reflexivity|exact Hcut|exact Ex].
+Qed.
+
+(* ------------------------------------------------------------------ parse on a prefix *)
+Lemma has_bom_inv l : has_bom l = true -> exists r, l = 239%N :: 187%N :: 191%N :: r.
+Proof.
+  destruct l as [|a [|b0 [|c r]]]; try discriminate.
+  - destruct a as [|pa]; [discriminate|]. do 8 (try destruct pa as [pa|pa|]; try discriminate).
+  - destruct a as [|pa]; [discriminate|]. do 8 (try destruct pa as [pa|pa|]; try discriminate).
+    destruct b0 as [|pb]; [discriminate|]. do 8 (try destruct pb as [pb|pb|]; try discriminate).
+  - destruct a as [|pa]; [discriminate|]. do 8 (try destruct pa as [pa|pa|]; try discriminate).
+    destruct b0 as [|pb]; [discriminate|]. do 8 (try destruct pb as [pb|pb|]; try discriminate).
+    destruct c as [|pc]; [discriminate|]. do 8 (try destruct pc as [pc|pc|]; try discriminate).
+    intros _. eexists. reflexivity.
+Qed.
+
+Lemma has_bom_firstn k d : has_bom (firstn k d) = true -> has_bom d = true /\ 3 <= k.
+Proof.
+  intros H. apply has_bom_inv in H. destruct H as (r & E).
+  destruct k as [|[|[|k]]]; destruct d as [|a [|b0 [|c d]]]; cbn [firstn] in E; try discriminate.
+  injection E as -> -> -> _. split; [reflexivity|lia].
+Qed.
+
+Lemma parse_unfold' input :
+  parse input =
+  omap (fun t => (t, has_bom input))
+       (ploop (2 * length input + 8) (mkps (if has_bom input then skipn 3 input else input) SKey false 0 [])).
+Proof. reflexivity. Qed.
+
+Theorem trunc_generic D F b k :
+  parse D = Ok (F, b) ->
+  (exists e, parse (firstn k D) = Err e) \/
+  (exists t b', parse (firstn k D) = Ok (t, b') /\ consistent_tape F t).
+Proof.
+  intros HP.
+  pose proof (parse_no_crash (firstn k D)) as NC.
+  destruct (parse (firstn k D)) as [[t b']| e | | |] eqn:EP; try contradiction; [|left; eauto].
+  right. exists t, b'. split; [reflexivity|].
+  destruct (Nat.le_gt_cases (length D) k) as [Hk|Hk].
+  { rewrite firstn_all2 in EP by exact Hk. rewrite HP in EP. injection EP as <- <-. left. apply prefix_cut_refl. }
+  rewrite parse_unfold' in HP, EP.
+  destruct (ploop _ (mkps (if has_bom D then _ else _) _ _ _ _)) as [F'| | | |] eqn:EF; try discriminate.
+  cbn [omap] in HP. injection HP as -> <-.
+  destruct (ploop_ok_runs _ _ _ EF) as (sf & R & HD).
+  destruct (ploop (2 * length (firstn k D) + 8) _) as [t'| | | |] eqn:Et; try discriminate.
+  cbn [omap] in EP. injection EP as -> <-.
+  pose proof (cut_run _ _ _ R HD (Inv_init _)) as CR.
+  destruct (has_bom D) eqn:HB.
+  - destruct (has_bom (firstn k D)) eqn:HBk.
+    + apply has_bom_firstn in HBk. destruct HBk as [_ H3].
+      refine (CR (length D - k) (2 * length (firstn k D) + 8) t _). unfold chopS. cbn [pdata pst_ pmixed pparent ptape].
+      replace (chop (length D - k) (skipn 3 D)) with (skipn 3 (firstn k D)); [exact Et|].
+      unfold chop. rewrite skipn_length, skipn_firstn_comm. f_equal. lia.
+    + (* fewer than 3 bytes of a text that starts with a BOM *)
+      destruct (has_bom_inv _ HB) as (D' & ->).
+      destruct k as [|[|[|k]]]; cbn [firstn] in *.
+      * vm_compute in Et. injection Et as <-. left. left. reflexivity.
+      * vm_compute in Et. discriminate.
+      * vm_compute in Et. discriminate.
+      * discriminate.
+  - destruct (has_bom (firstn k D)) eqn:HBk.
+    + apply has_bom_firstn in HBk. destruct HBk as [HBD _]. congruence.
+    + refine (CR (length D - k) (2 * length (firstn k D) + 8) t _). unfold chopS. cbn [pdata pst_ pmixed pparent ptape].
+      rewrite <- firstn_chop by lia. exact Et.
+Qed.
+
+(* ------------------------------------------------------------------ rendered documents *)
+From JV.proofs Require TextParseProofs.
+
+Theorem trunc_text d l k :
+  wf_doc d -> wf_layout d l ->
+  let r := parse (firstn k (render d l)) in
+  (exists e, r = Err e) \/ consistent d r.
+Proof.
+  intros Hd Hl r. pose proof (TextParseProofs.parse_render d l Hd Hl) as HP.
+  destruct (trunc_generic _ _ _ k HP) as [He | (t & b' & E & Hc)]; [left; exact He|].
+  right. exists t, b'. split; [exact E|exact Hc].
+Qed.
+
+(* what [consistent_tape] implies position by position: a token of the result below the cut
+   container / last token is literally the original's *)
+Lemma prefix_cut_nth t F i : prefix_cut t F -> i + 1 < length t -> nth_error t i = nth_error F i.
+Proof.
+  intros [->|(t0 & x & y & -> & Hf & _)] Hi; [cbn in Hi; lia|].
+  rewrite app_length in Hi. cbn [length] in Hi.
+  rewrite nth_error_app_l by lia. rewrite <- Hf at 1. apply nth_error_firstn_lt. lia.
+Qed.
+
+Lemma prefix_cut_last t0 x F : prefix_cut (t0 ++ [x]) F -> exists y, nth_error F (length t0) = Some y /\ tok_cut x y.
+Proof.
+  intros [E|(t0' & x' & y & E & _ & Hy & Hc)]; [destruct t0; discriminate|].
+  apply app_inj_tail in E. destruct E as [-> ->]. eauto.
+Qed.
+
+Lemma prefix_cut_length t F : prefix_cut t F -> length t <= length F.
+Proof.
+  intros [->|(t0 & x & y & -> & _ & Hy & _)]; [cbn; lia|].
+  rewrite app_length. cbn [length]. assert (length t0 < length F) by (apply nth_error_Some; congruence). lia.
+Qed.
